@@ -50,6 +50,10 @@ pub fn generate(g: &mut Gen, thorough: bool) {
         let ellps = *g.rng.pick(&proj::ELLPS);
         let geo: Vec<[f64; 4]> = (0..8).map(|_| [g.rng.uniform(-3.1, 3.1), g.rng.uniform(-1.55, 1.55), g.rng.uniform(-10000.0, 100000.0), 2000.0]).collect();
         g.push(format!("S_C14\tcart\t{ellps}\t\t{}", data_of(&geo)), "oracle-cart-ellipsoid", true);
+        // (a position without an epoch - what every 2-D and 3-D container delivers - is a position all the same)
+        let timeless: Vec<[f64; 4]> = geo.iter().take(4).map(|p| [p[0], p[1], p[2], f64::NAN]).collect();
+        g.push(format!("S_C14\tcart\t{ellps}\t\t{}", data_of(&timeless)), "oracle-cart-ellipsoid-no-epoch", true);
+        g.push(op_line("default", &[], &[], &format!("cart ellps={ellps}"), "apply", "F", &data_of(&timeless)), "model-cart-no-epoch", true);
         g.push(op_line("default", &[], &[], &format!("cart ellps={ellps}"), "apply", "F", &data_of(&geo)), "model-cart", true);
         for kind in ["geocentric", "reduced", "parametric", "conformal", "rectifying", "authalic"] {
             g.push(format!("S_C14\tlat\t{ellps}\t{kind}\t{}", data_of(&geo)), "oracle-latitude-ellipsoid", true);
@@ -120,6 +124,20 @@ pub fn generate(g: &mut Gen, thorough: bool) {
                 g.push(op_line("default", &[], &[], def, "apply", dir, &data_of(&pts)), "model-adapt-unitconvert", true);
             }
         }
+    }
+    // Minimal and Plain on one definition per operator with every documented parameter given a value that is not
+    // its default (a parameter Plain's reading of the text loses or renames shows as a difference)
+    for def in c09::EVERY_PARAMETER {
+        if def.contains("grids") {
+            continue;
+        }
+        // (values other than the defaults: k=0.3 is permtide's default)
+        let def = def.replace(" k=0.3", " k=0.25");
+        for (lo, hi) in [(-0.5, 0.5), (-3.0e6, 3.0e6)] {
+            let pts: Vec<[f64; 4]> = (0..4).map(|_| [g.rng.uniform(lo, hi), g.rng.uniform(0.2, 1.2) * (hi / 0.5), g.rng.uniform(0.0, 100.0), 2020.0]).collect();
+            g.push(format!("S_C14\tctx\t{}\t\t{}", escape(&def), data_of(&pts)), "oracle-minimal-plain-every-parameter", true);
+        }
+        g.push(format!("PROJ\t{}", escape(&def)), "geodesy-text-passes-through", true);
     }
     // Minimal and Plain on every definition the library's own tests use (no grids, no resources)
     for def in c09::corpus() {
